@@ -57,7 +57,13 @@ let seg_of s =
     | _ -> failwith "bad Z segment"
   end else bytes_of_hex s
 let segs_of s = if s = "_" || s = "" then [] else List.map seg_of (String.split_on_char ',' s)
-let caps_of s = if s = "-" || s = "_" then [] else List.map z_of_dec (String.split_on_char ',' s)
+(* table tokens: k = client k (0 = nil), n = promised client resolved to null (identity: nil),
+   r<k> = promised client resolved to client k (identity: k) -- identity is IsSame after resolution *)
+let cap_of_tok t =
+  if t = "n" then Z0
+  else if String.length t > 0 && t.[0] = 'r' then z_of_dec (String.sub t 1 (String.length t - 1))
+  else z_of_dec t
+let caps_of s = if s = "-" || s = "_" then [] else List.map cap_of_tok (String.split_on_char ',' s)
 let sel_of s = if s = "r" then SelRoot else SelField (z_of_dec (String.sub s 1 (String.length s - 1)))
 let cfg t d = { cfg_T = z_of_dec t; cfg_D = z_of_dec d; cfg_strict = true; cfg_root = true }
 let rdfix = { fx_depth = true; fx_upgrade = true; fx_bit = true }
